@@ -389,6 +389,19 @@ def do_check(pid, tier, only=None, keep=False, jobs=None, scratch=None):
         results.sort(key=lambda r: [q.name for q in queries].index(r['q'].name))
         known = load_known()
         violations = []; known_hits = []; inconclusive = []; undecided = []; validated = 0
+        # translation validation on every run: the witness trace of each decided query (a full path to the end of the harness on which the solver
+        # proved every assertion) is replayed against the real library; a native failure on it means the encoding and the real code disagree
+        do_wr = os.environ.get('VP_NO_WITNESS_REPLAY') != '1'
+        wr_jobs = [r for r in results if do_wr and r['verdict'] in ('holds', 'cex') and r.get('witness_sample') is not None and r['q'].replay]
+        def _wr(r):
+            try: return replay_native(ctx, r['q'], r['prep'], r['witness_sample'])
+            except Exception as exn: return {'status': 'driver-exception: %s' % exn, 'reproduced': False}
+        if wr_jobs:
+            build_groups = {}
+            for r in wr_jobs: build_groups.setdefault(shim_key(r['q']), r)
+            for r in build_groups.values(): build_native(ctx, r['q'], r['prep'])      # the shared objects of each shim once, before the pool
+            with ThreadPoolExecutor(max_workers=jobs) as ex:
+                for r, w in zip(wr_jobs, ex.map(_wr, wr_jobs)): r['witness_replay_info'] = w
         for r in results:
             q = r['q']
             if r['verdict'] in ('error', 'inconclusive', 'vacuous'):
@@ -400,10 +413,15 @@ def do_check(pid, tier, only=None, keep=False, jobs=None, scratch=None):
                     inconclusive.append((q.name, r['verdict'], r.get('reason')))
                 continue
             # replay the witness trace of each query against the real library (validates the harness + encoding end to end)
-            if r.get('witness_sample') is not None and q.replay and os.environ.get('VP_NO_WITNESS_REPLAY') != '1' and tier == 'thorough':
-                w = replay_native(ctx, q, r['prep'], r['witness_sample'])
+            if r.get('witness_replay_info') is not None:
+                w = r['witness_replay_info']
                 r['witness_replay'] = w['status']
                 if w['status'] == 'passed': validated += 1
+                elif w.get('reproduced') and r['verdict'] == 'holds':
+                    # every assertion on this path is proved by the solver, yet the real library fails one on the same inputs: the encoding
+                    # (translator, model or harness) misrepresents the code -> the query's verdict is not believed
+                    inconclusive.append((q.name, 'witness-replay-mismatch', 'native run of the witness trace: %s %s' % (w['status'], '; '.join(w.get('asserts_failed', []))[:300])))
+                    continue
             if r['verdict'] == 'cex':
                 # group failed properties by description; replay each distinct input vector
                 seen_inputs = {}
